@@ -70,7 +70,17 @@ def check(prop, tier, only):
     j = J("h_tsafe_ll", "dbg", "--ll", name="handler-registries-threads[dbg]")
     j["only_tags"] = ["handler-registration-lost/buffer_overflow"]
     jobs.append(j)
-    return checks.run_enum_check(prop, tier, jobs, level="exploration", only=only, note=note, assumptions=assumptions)
+    # fill patterns on the arena allocators through the explorer: M-fillnew / M-fillfree on every returned / released range and
+    # M-content ("without touching neighbouring live memory") on every transition, allocator_traits family included (array element
+    # sizes below the node size), configurations with fill
+    fc = ["rwd", "dbg"] if tier == "quick" else ["rwd", "dbg", "dbg16"]
+    ex = checks.pool_suite(tier, fc[:1], fams=("traits",)) + checks.coll_suite(tier, fc[:1], fams=("traits",))
+    if tier != "quick":
+        ex += checks.pool_suite(tier, fc[1:], fams=("traits",)) + checks.pool_suite(tier, fc[:1], extra="--tries 1") + checks.stack_suite(tier, fc[:1], extra="--tries 1")
+    for j in ex:
+        j["own"] = ["M-content"]
+    return checks.run_explore_check(prop, tier, ex, only=only, enum_jobs=jobs, note="explorer part: " + checks.NOTE_BFS + "M-fillnew/M-fillfree/M-content. Enumeration part: " + note,
+                                    assumptions=assumptions)
 
 
 def register(CHECKS):
